@@ -212,7 +212,9 @@ impl BytesSerializable for Permissions {
         bytes.put_u8(if self.global.read_topics { 1 } else { 0 });
         bytes.put_u8(if self.global.poll_messages { 1 } else { 0 });
         bytes.put_u8(if self.global.send_messages { 1 } else { 0 });
-        if let Some(streams) = &self.streams {
+        // The format cannot express an empty map (the decoder reads at least one entry after the
+        // presence flag): an empty map is written as an absent one.
+        if let Some(streams) = self.streams.as_ref().filter(|streams| !streams.is_empty()) {
             bytes.put_u8(1);
             let streams_count = streams.len();
             let mut current_stream = 1;
@@ -224,7 +226,7 @@ impl BytesSerializable for Permissions {
                 bytes.put_u8(if stream.read_topics { 1 } else { 0 });
                 bytes.put_u8(if stream.poll_messages { 1 } else { 0 });
                 bytes.put_u8(if stream.send_messages { 1 } else { 0 });
-                if let Some(topics) = &stream.topics {
+                if let Some(topics) = stream.topics.as_ref().filter(|topics| !topics.is_empty()) {
                     bytes.put_u8(1);
                     let topics_count = topics.len();
                     let mut current_topic = 1;
